@@ -36,7 +36,7 @@ ASSUMPTIONS = [
     "LMDB backend over /verif/shim (judged after writer idle); SQL = SQLite",
 ]
 MIN_NONTRIVIAL = {"quick": 400, "thorough": 4000}
-REQUIRED_COUNTERS = ["e2e.e2e_worker_readbacks", "clause.older_removed", "clause.newest_kept", "clause.frame", "clause.refused_version_frame", "clause.odd_d_tag", "clause.low_max_limit_steps", "clause.many_versions"]
+REQUIRED_COUNTERS = ["e2e.e2e_worker_readbacks", "clause.older_removed", "clause.newest_kept", "clause.frame", "clause.refused_version_frame", "clause.odd_d_tag", "clause.low_max_limit_steps", "clause.many_versions", "clause.slow_selects"]
 SHARD_TIMEOUT = {"quick": 500, "thorough": 3000}
 KINDS = [0, 3, 1, 10000, 19999, 30000, 39999]
 DVALS = [None, "BARE", "", "a", "ab", "abc", "é"]
@@ -66,6 +66,8 @@ def _plan(tier, seed):
             out.append({"backend": b, "mode": "random", "case_seed": seed * 7919 + 1000 + i, "n": 4 if tier == "quick" else 12})
         # a relay configured with a small max_limit (own process: the relay captures the option at import time)
         out.append({"backend": b, "mode": "lowcap", "case_seed": seed * 7919 + 2000, "n": 3 if tier == "quick" else 10})
+    for i in range(1 if tier == "quick" else 4):
+        out.append({"backend": "sql", "mode": "slowdb", "case_seed": seed * 7919 + 3000 + i, "n": 5})
     return out
 
 
@@ -291,10 +293,22 @@ def classify_relation(E, v):
     return "same-address?"
 
 
-async def run_history(backend, history, counters, config=None):
+async def run_history(backend, history, counters, config=None, slow_select=0.0):
     rig = R.Rig(backend=backend, config=dict({"analysis_delay": 0}, **(config or {})))
     await rig.start()
     viols, nontrivial = [], []
+    if slow_select and backend == "sql":
+        # a database that answers slowly (loaded host, big table, remote server): every SELECT on the events table takes
+        # `slow_select` seconds of real time in the driver's thread - whatever the relay measures or times out on
+        import time as _t
+        from sqlalchemy import event as sa_event
+
+        def before(conn, cursor, statement, parameters, context, executemany):
+            if statement.lstrip().upper().startswith("SELECT") and "events" in statement:
+                counters.setdefault("clause", {})["slow_selects"] = counters.get("clause", {}).get("slow_selects", 0) + 1
+                _t.sleep(slow_select)
+
+        sa_event.listen(rig.storage.db.sync_engine, "before_cursor_execute", before)
     try:
         steps = [hist.Step("event", raw=e) for e in history]
         await hist.drive(rig, steps, make_judge(backend, history, counters, viols, nontrivial))
@@ -332,9 +346,29 @@ def run_shard(spec):
         histories = histories[: 60 if spec["n"] <= 10 else 400]
     elif spec["mode"] == "lowcap":
         histories = [many_addresses_history(r) for _ in range(spec["n"])]
+    elif spec["mode"] == "slowdb":
+        histories = []
     else:
         histories = [random_history(r, r.randint(15, 40)) for _ in range(spec["n"])]
-    viols, nontrivial = R.run(run_many, spec["backend"], histories, counters, {"max_limit": 5} if spec["mode"] == "lowcap" else None)
+    if spec["mode"] == "slowdb":
+        histories = perm_histories(r, 10)
+        r.shuffle(histories)
+        histories = [hs for hs in histories if len(hs) <= 4][:5]
+
+        async def slow_many(backend, histories, counters):
+            viols, nontrivial = [], []
+            for hs in histories:
+                v, nt = await run_history(backend, hs, counters, None, slow_select=0.6)
+                for x in v:
+                    x["key"] += "/slow-database"
+                    x["replay"]["slow_select"] = 0.6
+                viols.extend(v)
+                nontrivial.extend(nt)
+            return viols, nontrivial
+
+        viols, nontrivial = R.run(slow_many, spec["backend"], histories, counters)
+    else:
+        viols, nontrivial = R.run(run_many, spec["backend"], histories, counters, {"max_limit": 5} if spec["mode"] == "lowcap" else None)
     if spec["mode"] == "random" and spec["case_seed"] % 3 == 0:
         for j in range(2):
             v2, nt2 = R.run(run_many_versions, spec["backend"], counters, spec["case_seed"] + j)
